@@ -364,6 +364,9 @@ func mapKey(t types.Type) string { return "M|" + typeKey(t.Underlying()) }
 
 // storeKeys adds the heap maps a store through addr may write.
 func (p *Program) storeKeys(addr ssa.Value, ms *ModSet) {
+	if _, _, priv := privRoot(addr); priv {
+		return // private local cell: invisible to callers
+	}
 	pt, ok := addr.Type().Underlying().(*types.Pointer)
 	if !ok {
 		ms.All = true
